@@ -11,6 +11,7 @@
 (*   [o |-> "get1", k, v, r]      v := m[k]                                *)
 (*   [o |-> "len",  n]            n := len(m)                              *)
 (*   [o |-> "clear", r]           clear(m)                                 *)
+(*   [o |-> "poke", k]            a write to the variable key k points to  *)
 (*   [o |-> "rs", i]  [o |-> "y", i, k, v, hv]  [o |-> "re", i, done]      *)
 (*                                a range loop i starts / produces (k, v) /*)
 (*                                ends (done = ran to completion)          *)
@@ -43,6 +44,7 @@ Apply(e) ==
     [] e.o = "get1"  -> Lookup1(e.k, e.v, e.r)
     [] e.o = "len"   -> LenIs(e.n)
     [] e.o = "clear" -> Clear(e.r)
+    [] e.o = "poke"  -> Poke(e.k)
     [] e.o = "rs"    -> IterStart(e.i)
     [] e.o = "y"     -> IterNext(e.i, e.k, e.v, e.hv)
     [] e.o = "re"    -> IterEnd(e.i, e.done)
